@@ -24,9 +24,9 @@ func NewChain(p Params, now func() int64) *Chain {
 }
 
 type Result struct {
-	Stage  string // "duplicate" | "orphan" | "check-refused" | "stored" (side branch, tip unchanged) | "connected" | "connect-refused"
-	Reason string
-	Node   *Node
+	Stage      string // "duplicate" | "orphan" | "check-refused" | "stored" (side branch, tip unchanged) | "connected" | "connect-refused"
+	Reason     string
+	Node       *Node
 	TipChanged bool
 }
 
